@@ -371,7 +371,95 @@ fn v9_boundaries(v: &V9Pkt) -> Vec<usize> {
     b
 }
 
+/// Maximal-size victims (one-off items): IPFIX messages whose length field is 65535, 65534 and
+/// 65532, a V9 packet filling the datagram and V5/V7 packets with the maximal datagram count, each
+/// decoded from a warm cache; structural and sampled cut points.
+fn c14_extreme_victims(w: &mut W) {
+    let mut victims: Vec<(String, Vec<Vec<u8>>, Vec<u8>, u16)> = vec![];
+    for total in [65535usize, 65534, 65532, 65531, 40000] {
+        // template (one 1-byte field), then a message of exactly `total` bytes: one data set
+        let t = IpfixMsg { export_time: 1, seq: 1, domain: 1, sets: vec![IpfixSet::Template { records: vec![IpfixTmpl { id: 256, fields: vec![IpfixSpec { type_num: 4, len: 1, enterprise: None }] }], padding: vec![] }] };
+        let n = total - 16 - 4;
+        let mut d = vec![];
+        d.extend_from_slice(&10u16.to_be_bytes());
+        d.extend_from_slice(&(total as u16).to_be_bytes());
+        d.extend_from_slice(&[0, 0, 0, 1, 0, 0, 0, 2, 0, 0, 0, 3]);
+        d.extend_from_slice(&256u16.to_be_bytes());
+        d.extend_from_slice(&((n + 4) as u16).to_be_bytes());
+        d.extend((0..n).map(|i| (i % 251) as u8));
+        victims.push((format!("ipfix-length-{}", total), vec![t.wire()], d, 10));
+        // the same size with a template set in front of the data (so that a cut after it matters)
+        let mut m = vec![];
+        m.extend_from_slice(&10u16.to_be_bytes());
+        m.extend_from_slice(&(total as u16).to_be_bytes());
+        m.extend_from_slice(&[0, 0, 0, 1, 0, 0, 0, 2, 0, 0, 0, 3]);
+        m.extend_from_slice(&[0, 2, 0, 12, 1, 1, 0, 1, 0, 4, 0, 1]);
+        let n = total - 16 - 12 - 4;
+        m.extend_from_slice(&257u16.to_be_bytes());
+        m.extend_from_slice(&((n + 4) as u16).to_be_bytes());
+        m.extend((0..n).map(|i| (i % 251) as u8));
+        victims.push((format!("ipfix-length-{}-with-template", total), vec![], m, 10));
+    }
+    for (ver, cnt) in [(5u16, 1364usize), (7, 1259), (5, 1365), (7, 1260)] {
+        let mut rng = Rng::derive(w.seed, 77, cnt as u64);
+        victims.push((format!("v{}-count-{}", ver, cnt), vec![], Pkt::Fixed(fixed_pkt(&mut rng, ver, cnt)).wire(), ver));
+    }
+    for (j, (name, warm, victim, ver)) in victims.into_iter().enumerate() {
+        if !w.oneoff(j as u64) {
+            continue;
+        }
+        let mut rng = w.begin_case(crate::worker::ONEOFF + j as u64, "extreme-victim");
+        let mut base = Sut::new(1);
+        for x in &warm {
+            base.parse(0, x);
+        }
+        let ref_snap = snap(&base.parsers[0]);
+        let l = victim.len();
+        let mut cuts: Vec<usize> = vec![1, 2, 3, 4, 15, 16, 17, 19, 20, 21, 23, 24, 25, 27, 28, 29, 31, 32, 33, 36, 40, l - 1, l - 2, l - 3, l - 4, l - 5, l / 2, 65534, 65533, 65532, 65531];
+        for _ in 0..(if w.thorough { 400 } else { 60 }) {
+            cuts.push(1 + rng.usize(l - 1));
+        }
+        cuts.retain(|c| *c > 0 && *c < l);
+        cuts.sort();
+        cuts.dedup();
+        w.rep.count("extreme_victims", 1);
+        w.rep.count("packets", 1);
+        let mut ok = true;
+        for cut in cuts {
+            let mut p = clone_parser(&base.parsers[0]);
+            let res = p.parse_bytes(&victim[..cut]);
+            w.rep.count("cut_points", 1);
+            let d = match res.as_slice() {
+                [NetflowPacket::Error(e)] if e.remaining == victim[..cut] => {
+                    if ver != 9 && snap(&p) != ref_snap {
+                        Some(div(&format!("trunc/v{}/caches", ver), "changed", format!("{}: cut {} of {}: caches changed by a truncated packet: {}", name, cut, l, snap_diff(&snap(&p), &ref_snap))))
+                    } else {
+                        None
+                    }
+                }
+                [NetflowPacket::Error(e)] => Some(div(&format!("trunc/v{}", ver), "error-remaining", format!("{}: cut {}: error.remaining has {} bytes, the truncated packet has {}", name, cut, e.remaining.len(), cut))),
+                [other] => Some(div(&format!("trunc/v{}", ver), "accepted", format!("{}: cut {} of {}: truncated packet reported as {}", name, cut, l, kind(other)))),
+                r => Some(div(&format!("trunc/v{}", ver), "element-count", format!("{}: cut {} of {}: {} elements {:?}, want one error", name, cut, l, r.len(), r.iter().map(kind).collect::<Vec<_>>()))),
+            };
+            if let Some(d) = d {
+                let mut s = Sut::new(1);
+                for x in &warm {
+                    s.parse(0, x);
+                }
+                s.parse(0, &victim[..cut]);
+                w.rep.violation(sig("C14", &d), &d, s.replay_json());
+                ok = false;
+                break;
+            }
+        }
+        if ok {
+            w.rep.shape(&format!("extreme-victim {}", name));
+        }
+    }
+}
+
 pub fn run_c14(w: &mut W) {
+    c14_extreme_victims(w);
     for idx in w.indices() {
         let mut rng = w.begin_case(idx, "truncation");
         let mut cfg = seq_cfg(&mut rng);
@@ -1140,7 +1228,10 @@ pub fn run_c07(w: &mut W) {
                 }
             }
         };
-        let wid = fresh_id(&ex, &mut rng);
+        // IPFIX: one never-defined orphan in eight uses Set ID 255, the last reserved id (neither a
+        // template set nor the id of any template: the set is omitted and defines nothing)
+        let reserved = !v9 && reason == 0 && rng.chance(1, 8);
+        let wid = if reserved { 255 } else { fresh_id(&ex, &mut rng) };
         let mut shadow = ex.clone();
         let (tmpl_pkt, data_fs_v9, data_set_ix): (Vec<u8>, Option<V9FlowSet>, Option<IpfixSet>);
         if v9 {
@@ -1185,6 +1276,17 @@ pub fn run_c07(w: &mut W) {
                 let n = if rs <= 1 || rng.chance(1, 2) { 0 } else { 1 + rng.usize((rs - 1).min(3)) };
                 d = IpfixSet::Data { id: wid, options: false, fields: t.fields.clone(), records: vec![], padding: rng.bytes(n) };
                 w.rep.count("orphans_without_a_complete_record", 1);
+            }
+            if reserved {
+                w.rep.count("orphans_with_reserved_set_id_255", 1);
+                if rng.chance(1, 2) {
+                    // body shaped like a template record
+                    let mut p = vec![];
+                    p.extend_from_slice(&(300 + rng.below(60000) as u16).to_be_bytes());
+                    p.extend_from_slice(&2u16.to_be_bytes());
+                    p.extend_from_slice(&[0, 1, 0, 4, 0, 2, 0, 4]);
+                    d = IpfixSet::Orphan { id: 255, body: p };
+                }
             }
             tmpl_pkt = shadow.ipfix_wrap(&mut rng, vec![IpfixSet::Template { records: vec![t.clone()], padding: vec![] }]).wire();
             data_set_ix = Some(d);
@@ -1373,6 +1475,9 @@ pub fn run_c07(w: &mut W) {
         }
         // once the template arrives the same data bytes decode normally
         let verdict = verdict.and_then(|_| {
+            if reserved {
+                return Ok(()); // no template can carry the id 255
+            }
             sut.parse(0, &tmpl_pkt);
             let res = sut.parse(0, &data_pkt_alone);
             w.rep.count("later_resolved", 1);
